@@ -31,6 +31,7 @@ RUNS = {"quick": 1600, "thorough": 120000}
 BLOCK = {"quick": 20, "thorough": 500}
 WATCHDOG_S = 3600
 TRACE_SAMPLE = 0  # scenarios run in child processes; reach is reported as switch sites instead
+HANG_NOTE = "a scenario child that does not answer within runner.HANG_S is reported as C13:hang; the child is killed by its own alarm"
 SHRINK_LISTS = ["threads", "switches"]
 RULE = (
     "thread runs (3 of 4): 2-4 real threads, one runnable at a time, pre-empted at pyrtcm source-line granularity by a "
@@ -172,6 +173,9 @@ def _in_child(fn, arg):
         code = 1
         try:
             os.close(r)
+            import signal
+
+            signal.alarm(900)  # a child that hangs (deadlock in the tree under test) must not outlive the check
             data = pickle.dumps(fn(arg))
             os.write(w, struct.pack("<I", len(data)))
             off = 0
